@@ -119,7 +119,37 @@ CORPUS_E2E = [
     {"transform": "diag", "nw": 3, "ms": [{"kind": "expval", "obs": ["sum", [["sprod", [2, 1], ["prod", [["P", "X", 0], ["P", "Y", 1]]]], ["sprod", [-1, 1], ["P", "Z", 2]], ["sprod", [1, 4], ["I", 0]]]]}]},
     {"transform": "snc:default", "nw": 2, "ms": [{"kind": "var", "obs": ["I", 0]}, {"kind": "expval", "obs": ["P", "X", 0]}]},
     {"transform": "single", "nw": 2, "ms": [{"kind": "var", "obs": ["I", 0]}, {"kind": "expval", "obs": ["sum", [["P", "X", 0], ["sprod", [2, 1], ["I", 1]]]]}]},
+    # rejection: two different Pauli letters requested on one wire (in any order, bare or inside Prod/Sum/SProd, with a bare Z,
+    # against probs, with supported_base_obs) must raise ValueError, never return a tape
+    {"transform": "diag_reject", "nw": 3, "ms": [{"kind": "expval", "obs": ["P", "X", 0]}, {"kind": "expval", "obs": ["P", "Z", 0]}]},
+    {"transform": "diag_reject", "nw": 3, "ms": [{"kind": "expval", "obs": ["P", "Z", 0]}, {"kind": "expval", "obs": ["P", "Y", 0]}]},
+    {"transform": "diag_reject", "nw": 2, "ms": [{"kind": "expval", "obs": ["P", "X", 1]}, {"kind": "var", "obs": ["P", "Y", 1]}]},
+    {"transform": "diag_reject", "nw": 3, "ms": [{"kind": "expval", "obs": ["P", "Z", 0]}, {"kind": "expval", "obs": ["sum", [["P", "X", 0], ["P", "Y", 1]]]}]},
+    {"transform": "diag_reject", "nw": 3, "ms": [{"kind": "expval", "obs": ["prod", [["P", "X", 0], ["P", "Z", 1]]]}, {"kind": "var", "obs": ["P", "Y", 1]}]},
+    {"transform": "diag_reject", "nw": 3, "ms": [{"kind": "expval", "obs": ["prod", [["P", "Y", 0], ["P", "X", 2]]]}, {"kind": "expval", "obs": ["sprod", [-3, 4], ["P", "Z", 2]]}]},
+    {"transform": "diag_reject", "nw": 2, "supported": ["X"], "ms": [{"kind": "expval", "obs": ["P", "Y", 0]}, {"kind": "expval", "obs": ["P", "Z", 0]}]},
+    {"transform": "diag_reject", "nw": 2, "supported": ["X", "Y"], "ms": [{"kind": "expval", "obs": ["P", "Z", 1]}, {"kind": "expval", "obs": ["prod", [["P", "X", 0], ["P", "X", 1]]]}]},
+    {"transform": "diag_reject", "nw": 2, "ms": [{"kind": "expval", "obs": ["sum", [["P", "X", 0], ["sprod", [1, 2], ["P", "Z", 0]]]]}]},
+    {"transform": "diag_reject", "nw": 2, "ms": [{"kind": "expval", "obs": ["P", "X", 0]}, {"kind": "probs", "wires": [0, 1]}]},
+    # accepted neighbours of the above (a bare Z next to X/Y on OTHER wires, Z repeated): values must match direct execution
+    {"transform": "diag", "nw": 3, "ms": [{"kind": "expval", "obs": ["prod", [["P", "X", 0], ["P", "Z", 1]]]}, {"kind": "var", "obs": ["P", "Z", 1]}, {"kind": "expval", "obs": ["P", "Y", 2]}]},
+    {"transform": "diag", "nw": 3, "ms": [{"kind": "expval", "obs": ["sum", [["P", "Z", 0], ["sprod", [1, 2], ["P", "X", 1]]]]}, {"kind": "expval", "obs": ["P", "Z", 0]}, {"kind": "var", "obs": ["prod", [["P", "X", 1], ["P", "Y", 2]]]}]},
 ]
+
+
+def qwc_letters(ms, nw):
+    """independent of pennylane: {wire: set of Pauli letters requested on it} over all terms of all measurements
+    (wires-only measurements = Z on their wires, all wires if none given; identity factors are free)"""
+    req = {}
+    for m in ms:
+        if m.get("obs") is None:
+            for w in (m["wires"] or range(nw)):
+                req.setdefault(w, set()).add(3)
+            continue
+        for word, c in ast_lin(m["obs"]).items():
+            for w, l in word:
+                req.setdefault(w, set()).add(l)
+    return req
 
 
 def run(ctx):
@@ -225,6 +255,20 @@ def run(ctx):
             bt = glist(r["btapes"], lambda t: glist(t, lambda o: f"({gz(o[0])}, {glist(o[1], lambda v: gq(Fr(*v)))})"))
             bterms.append(f"({bo}, {gnat(r['B'])}, {bt})")
             bidx.append(r)
+        if tn == "diag_reject":
+            clash = sorted(w for w, ls in qwc_letters(r["ms"], r["nw"]).items() if len(ls) > 1)
+            if not clash:
+                raise RuntimeError("c20 diag_reject case is qubit-wise commuting (generator fault): " + rid)
+            if st == "accepted_noncommuting":
+                ctx.violation("e2e-diag-accepted:" + rid, r, what=f"diagonalize_measurements returned a tape although different Pauli letters are measured on wire(s) {clash} "
+                              f"(must raise ValueError); values of the returned tape vs direct execution: {r.get('accepted_values')} {r.get('detail', '')}")
+                continue
+            if st == "raised" and r.get("exc") != "ValueError":
+                ctx.violation("e2e-diag-exc:" + rid, r, what=f"diagonalize_measurements rejected a non-commuting measurement set with {r.get('exc')} instead of the documented ValueError")
+                continue
+        if tn in ("diag", "diag_sub") and r.get("ms") is not None:
+            if any(len(ls) > 1 for ls in qwc_letters(r["ms"], r["nw"]).values()):
+                raise RuntimeError("c20 diag case is not qubit-wise commuting (generator fault): " + rid)
         if st in ("ok", "raised"):
             if st == "raised" and tn not in ("snc_reject", "diag_reject"):
                 ctx.violation("e2e-raise:" + rid, r, what=f"{tn} raised on an input it should accept")
